@@ -426,8 +426,11 @@ class Ctx:
         validate_evidence(path)
         for ln in lines:
             print(ln)
-        for p, v in replay_paths:
-            print(f"  violation: {v['what']}")
+        for i, (p, v) in enumerate(replay_paths):
+            if i == 40:
+                print(f'  ... {len(replay_paths) - 40} further violation groups (replay files written, not listed)')
+                break
+            print(f"  violation: {v['what'][:400]}")
             print(f'VIOLATION property={self.pid} replay={p}')
         extra = ''
         if self.level == 'model_checking':
